@@ -191,7 +191,24 @@ func (w *Foreign) Header(t *tape.Tape) {
 
 func (w *Foreign) styling(t *tape.Tape) {
 	w.mark(MarkOpcode, 1)
-	switch t.Pick(3, 3, 5, 5, 1) {
+	switch t.Pick(3, 3, 5, 5, 1, 2) {
+	case 5:
+		// a gradient descriptor stored in CREG[CSEL-adj] and used at once as the
+		// fill of the path that follows: stop counts at the edges (none, one,
+		// the most the registers hold), the two reserved bits of the count byte,
+		// base registers anywhere (wrapping windows), both shapes, all spreads
+		adj := byte(t.Intn(7))
+		w.B = append(w.B, 0x98+adj)
+		w.mark(MarkOperand, 4)
+		r := byte([]int{0, 0, 1, 2, 3, 62, 63}[t.Intn(7)])
+		if t.Chance(1, 3) {
+			r = byte(t.Intn(64))
+		}
+		if t.Chance(1, 3) {
+			r |= byte(1+t.Intn(3)) << 6
+		}
+		w.B = append(w.B, r, byte(t.Intn(256)), 0x80|byte(t.Intn(128)), 0x00)
+		w.pathAdj(t, int(adj))
 	case 0:
 		w.B = append(w.B, byte(t.Intn(64)))
 	case 1:
@@ -211,9 +228,15 @@ func (w *Foreign) styling(t *tape.Tape) {
 	}
 }
 
-func (w *Foreign) path(t *tape.Tape) {
+func (w *Foreign) path(t *tape.Tape) { w.pathAdj(t, -1) }
+
+// pathAdj writes a path filled from CREG[CSEL-adj] (adj < 0: any).
+func (w *Foreign) pathAdj(t *tape.Tape, adj int) {
 	w.mark(MarkOpcode, 1)
-	w.B = append(w.B, 0xc0+byte(t.Intn(7)))
+	if adj < 0 {
+		adj = t.Intn(7)
+	}
+	w.B = append(w.B, 0xc0+byte(adj))
 	w.Number(t, 1, MarkOperand)
 	w.Number(t, 1, MarkOperand)
 	nOps := t.Range(0, 6)
